@@ -406,6 +406,8 @@ def check_C02(tier: str, v: Verdict):
     direct = directly_constructed_results(rng, 400 if tier == "quick" else 4000)
     validate_traces(v, "Trace_Eval", [x for x in EVAL_C02 if x.startswith("T_Book")], direct, site_eval, what_fn=what_eval)
     v.cov["directly_constructed_results"] = len(direct)
+    from .extras import extra_lazy_result
+    extra_lazy_result(v, tier)
     _count_cov(v, recs, _eval_key, lambda r: r["out"] == "ok" and r["res"]["npred"] + r["res"]["nref"] > 0)
     v.cov["rule"] = ("evaluate() over label-map pairs x input types x matchers (incl. many-to-one, merge) x decision metric/threshold, "
                      "the README configuration, and directly constructed PanopticaResult objects; distinct by (arrays, config); "
